@@ -660,7 +660,11 @@ def _derives_from_log_term(fs, t, R, term_pos, cand):
             continue
         seen.add(x.key)
         if x.key.endswith('[%d]' % term_pos) and (('A:' + R.log) in x.deps or _alias_dep(fs, x, 'A:' + R.log)):
-            return True
+            # ... of the entry AT the candidate index: the lookup depends on the candidate (directly or through a local that
+            # holds `lookup(candidate)`), not e.g. on the last entry of the log
+            csyms = set(d for d in cand.deps if d.startswith('L:'))
+            if not csyms or (csyms & x.deps) or any(_alias_dep(fs, x, cs) for cs in csyms):
+                return True
         for l in fs:
             if l[0] == 'eq':
                 if l[1] == x:
